@@ -89,7 +89,7 @@ def required_counters(tier):
          'judged:readback-format-given': 200 * k, 'judged:readback-extension-inferred': 700 * k,
          'judged:readback-content-inferred': 500 * k, 'judged:readback-gzip-copy': 1000 * k,
          'judged:write-extension-identified': 100 * k, 'judged:unknown-format': 80, 'judged:no-stray-files': 200 * k,
-         'judged:overwritten-completely': 80 * k, 'skipped-element-success': 100 * k, 'overwrite-through-symlink': 20 * k, 'destination-spelled-home-relative': 20 * k, 'destination-already-holds-the-same-content': 50 * k}
+         'judged:overwritten-completely': 80 * k, 'skipped-element-success': 100 * k, 'overwrite-through-symlink': 20 * k, 'destination-spelled-home-relative': 20 * k, 'destination-already-holds-the-same-content': 50 * k, 'destination-named-through-symlinked-dir-and-dotdot': 50 * k}
     for f in FORMATS:
         d[f'success:{f}'] = 25 * k
         d[f'raised-on-injection:{f}'] = (100 if f != 'ds9' else 40) * k      # ds9 now skips (with a warning) what it cannot express; only bad options raise
@@ -547,6 +547,15 @@ def run_cell(case, obs, casedir):
     path = os.path.join(casedir, 'out' + case['ext'])
     target = os.path.join(casedir, 'real-target.bin')
     contentfmt = fmt if fmt in FORMATS else 'ds9'
+    dotdot = None
+    if fmt in FORMATS and not unknown and case['cell'] % 5 == 3 and dest in ('file', 'absent'):
+        # the destination is named through a symlinked directory and '..': <cell>/lnk/../out.ext with lnk -> store/sub is the file
+        # <cell>/store/out.ext (the kernel follows the link before going up), not <cell>/out.ext
+        os.makedirs(os.path.join(casedir, 'store', 'sub'))
+        os.symlink(os.path.join('store', 'sub'), os.path.join(casedir, 'lnk'))
+        path = os.path.join(casedir, 'store', 'out' + case['ext'])
+        dotdot = os.path.join(casedir, 'lnk', '..', 'out' + case['ext'])
+        obs.count('destination-named-through-symlinked-dir-and-dotdot')
     old = old_content(contentfmt)
     if dest in ('file', 'symlink') and case['cell'] % 4 == 2 and fmt in FORMATS and not unknown:
         # the destination already holds exactly what this very call would write (the same regions written there a moment ago):
@@ -587,7 +596,9 @@ def run_cell(case, obs, casedir):
         wpath = pathlib.Path(path)          # the same destination named by a path object
         obs.count('destination-given-as-pathlib-Path')
     home0 = os.environ.get('HOME')
-    if fmt == 'fits' and fmtarg is not None and not unknown and case['cell'] % 3 == 1 and dest in ('file', 'absent'):
+    if dotdot is not None:
+        wpath = dotdot
+    elif fmt == 'fits' and fmtarg is not None and not unknown and case['cell'] % 3 == 1 and dest in ('file', 'absent'):
         # the same destination spelled home-relative (astropy's FITS writer expands a leading '~'; HOME is this cell's directory)
         os.environ['HOME'] = casedir
         wpath = '~/' + os.path.basename(path)
